@@ -203,7 +203,7 @@ impl MonthCode {
 
         match calendar.identifier() {
             "chinese" | "dangi" if LUNAR_LEAP_MONTHS.contains(&self.0) => Ok(()),
-            "coptic" | "ethiopic" | "ethiopicaa" if MONTH_THIRTEEN == self.0 => Ok(()),
+            "coptic" | "ethiopic" | "ethioaa" if MONTH_THIRTEEN == self.0 => Ok(()),
             "hebrew" if MONTH_FIVE_LEAP == self.0 => Ok(()),
             _ => Err(TemporalError::range()
                 .with_message("MonthCode was not valid for the current calendar.")),
